@@ -9,6 +9,7 @@ K: extracted Gallina models (coq/Model/Dual.v over Q, coq/Model/Truncate.v over 
    implementation: indices and crossings exactly, positions with tolerance."""
 from lib import *  # noqa
 import gen
+import argforms as AF
 from koala.lattice import Lattice, LatticeException, cut_boundaries
 from koala.graph_utils import make_dual, vertices_to_polygon, remove_trailing_edges
 
@@ -497,6 +498,32 @@ def corner_margin(pos, edges, cr, sel):
     return m
 
 
+# ------------------------------------------------------------------ argument forms (argforms.py)
+# vertices_to_polygon(lattice, vertices): "either an index ... or a list of indices" (type hint np.ndarray, default None).  The
+# selected SET is what matters: a Python int / numpy integer scalar, a list / tuple / array of any integer dtype and memory
+# layout, in another order or with repeats, denote the same selection.  The model and the restatement get op["sel"] as is.
+AF_SEL_SCALAR = ["int", "np.int64", "np.int32", "np.int16", "np.int8", "np.uint8", "np.uint32", "np.uint64", "np.intp"]
+AF_SEL_SEQ = ["int64+list", "int64+tuple", "int64", "int8", "uint8", "int16", "int32", "uint32", "intp", "int64+readonly", "int32+strided", "int64+npscalars"]
+AF_EXCLUDED = {("vertices_to_polygon.vertices", "boolean mask"): "not documented (an index or a list of indices); `n in mask` tests values, not positions",
+               ("vertices_to_polygon.vertices", "0-d array"): "not documented; kept out (works today through `n in array`)"}
+
+
+def arg_forms(res, sel, form, *key):
+    """the selection handed to vertices_to_polygon; `form` is the generator's own hint (scalar / array / list)"""
+    for (a, f), why in AF_EXCLUDED.items():
+        AF.exclude(res, a, f, why)
+    if sel is None:
+        AF.note(res, "vertices_to_polygon.vertices", "None")
+        return None
+    if form == "scalar":
+        return AF.choose_scalar(res, "vertices_to_polygon.vertices(index)", sel, AF_SEL_SCALAR, *key)
+    vals = list(sel)
+    if len(vals) >= 2 and AF.pick([0, 1, 2], "dup", vals, *key) == 0:
+        vals = vals[::-1] + vals[:2]                  # same set: other order, two repeats
+        AF.note(res, "vertices_to_polygon.vertices(order)", "reversed+2 repeats")
+    return AF.choose(res, "vertices_to_polygon.vertices", vals, AF_SEL_SEQ, *key, base=np.int64)
+
+
 # ------------------------------------------------------------------ cases
 def make_ops(pos, edges, rng, mode):
     V = len(pos)
@@ -701,7 +728,7 @@ def evaluate(ctx, cases, label):
             else:
                 sel = op["sel"]
                 form = op.get("form")
-                arg = None if sel is None else (sel if form == "scalar" else (np.array(sel, dtype=int) if form == "array" else list(sel)))
+                arg = arg_forms(res, sel, form, len(pos), len(edges))
                 try:
                     out_lat = vertices_to_polygon(lat, arg)
                 except Exception as e:
